@@ -731,7 +731,18 @@ func (c *Codec) DecodeStream(reader io.Reader) (framer.Frame, error) {
 		s.DataType = dataType
 		size := int64(dataLenOrSize)
 		if !dataType.IsVariable() {
-			size = int64(dataType.Density().Size(size))
+			// A channel may carry a data type this build does not know (the type is a
+			// free-form string when a channel is created): it has no density, and
+			// Density.Size panics on that. The bytes come from the network.
+			density := dataType.Density()
+			if density == telem.UnknownDensity {
+				return errors.Newf(
+					"cannot decode series for channel %v: unknown data type %s",
+					key,
+					dataType,
+				)
+			}
+			size = int64(density.Size(size))
 		}
 		if s.Data, err = c.readData(size); err != nil {
 			return err
